@@ -277,8 +277,12 @@ func (c *simConn) Write(p []byte) (int, error) {
 		e := c.policy[0]
 		c.policy = c.policy[1:]
 		out = e.out
-		if out != "ok" && e.accept < n {
-			n = e.accept
+		if out != "ok" {
+			// A-conn: a Write that reports an error accepted fewer bytes than it was given
+			n = len(p) - 1
+			if e.accept < n {
+				n = e.accept
+			}
 		}
 	}
 	if n > 0 {
